@@ -325,3 +325,45 @@ PROPS['C12'] = dict(
     level_text='generated configurations and input histories for all three controllers and modes; exact equality on the exactly representable class; sampling, not proof',
     level_note='trusts the reference equations in exec/C12.cc; histories <= 200 steps',
 )
+
+REAL_SW = ['ASINH', 'ACOSH', 'ATANH', 'EXPM1', 'LOG1P', 'ATAN2', 'HYPOT']
+CPLX_SW = [h for h in HAVE_ALL if h not in REAL_SW]
+
+
+def c11_units(tier, seed):
+    import random
+    rnd = random.Random(seed)
+    if tier == 'thorough':
+        masks = list(range(128))
+    else:
+        masks = [127, 0] + rnd.sample(range(1, 127), 2)
+    units = []
+    for real in (8, 4):
+        for m in masks:
+            on = [s for i, s in enumerate(REAL_SW) if (m >> i) & 1]
+            off = [s for s in REAL_SW if s not in on]
+            name = '%s-%02x' % ('f64' if real == 8 else 'f32', m)
+            cfg = '%s, libm: %s; fallback: %s' % ('double' if real == 8 else 'float', ','.join(on) or '-', ','.join(off) or '-')
+            units.append(Unit(name, 'exec/C11.cc', ['a.c', 'math.c'], defs=config_defs(real, on + CPLX_SW),
+                              exec_defs=['-DVP_CFG="%s"' % name], tape_len=200, config=cfg, fuzz=(m in (0, 127))))
+    return units
+
+
+PROPS['C11'] = dict(
+    level='exploration',
+    rule='one executor binary per build configuration: a subset of the 7 switches A_HAVE_ASINH/ACOSH/ATANH/EXPM1/LOG1P/ATAN2/HYPOT (libm or fallback each) x real type (double, float) passed as -D flags to the unmodified sources; '
+         'quick: all-on, all-off and two seeded random subsets for both types, thorough: all 128 subsets x 2 types. Each tape yields up to 6 sub-cases: asinh/acosh/atanh/expm1/log1p/atan2 on arguments log-uniform over the whole exponent '
+         'range of the type (both signs, 1+tiny for acosh, near 0 / +-0.5 / +-1 for atanh, > -1 for log1p, all quadrants and exact axis points for atan2) plus a dictionary of formula-switch values +-4 ulp; norms of 2, 3, n <= 40 '
+         '(strided) components mixing magnitudes whose squares over/underflow, cart2pol/cart2sph/pol2cart/sph2cart; sum/sum1/sum2/mean/dot and strided forms on integer (exact) and real data; copy/swap/fill/zero/push/roll and block '
+         'forms on lengths 0..20 against std::rotate/copy models in exact-size heap blocks. Oracle: glibc long double functions (64-bit mantissa); accept |got-ref| <= K*u*|ref| (u = 2^-53 / 2^-24), norms (n+4)*u and finite whenever the '
+         'true value is representable; atan2(0, x<0) accepts +-pi. non-trivial = argument outside [1e-3, 1e3] or on an axis, extreme norm mix, reductions/shifts with n >= 2; distinct = (configuration, function, argument bits)',
+    assumptions=COMMON_ASSUME + ['reference: glibc asinhl/acoshl/atanhl/expm1l/log1pl/atan2l/sqrtl in x87 long double, whose own error (<= 1 ulp of 2^-64) is 2^-10 of the acceptance bound',
+                                 'results in the subnormal range are judged with absolute precision', 'block push forms are generated only for cache length <= block length'],
+    units=c11_units,
+    plan={'quick': dict(rc_procs=2, rc_cases=25000, fuzz_procs=1, fuzz_secs=15),
+          'thorough': dict(rc_procs=1, rc_cases=60000, fuzz_procs=1, fuzz_secs=60)},
+    tolerances={'K': 16, 'norms': '(n+4)*u', 'reductions': 'exact on integers, (n+2)*u*sum|terms| otherwise'},
+    technique='property-based differential testing against long double references, one binary per A_HAVE_* configuration and real type (configurations are part of the generated case space); rapidcheck tapes + libFuzzer',
+    level_text='generated arguments over the full exponent range per function and configuration, judged against a higher-precision reference with a fixed ulp budget; sampling, not proof; errors below K*u are invisible',
+    level_note='trusts glibc long double math; quick covers 4 of 128 switch subsets per type, thorough all of them',
+)
